@@ -183,6 +183,16 @@ def extra(repo, reg, tier, seed):
                       witness=w, confirmed=True if w else None, func=f"{inherit.TYPE}._resolve_inherit_parent",
                       detail="bounded: a three-level EXTENDS chain over four files, all 24 orders of linking the files with the real "
                              "parser and resolve_links: every type's members are its own plus its ancestors' minus the overridden"))
+    from contracts import c05_gen
+    w, n, ns = c05_gen.run_completion(tier, seed)
+    it = Item("C12/session/generated_completion_oracle", "refuted" if w else "bounded-ok", "native-run(bounded)", 0.0, mode="bounded",
+              witness=w, confirmed=True if w else None, func=f"{LS}.serve_autocomplete",
+              detail=f"bounded: {n} generated multi-file programs (the C05 model: USE graphs with ONLY lists and renames with and "
+                     f"without ONLY, default and explicit accessibility, re-export, procedure-level USE, shadowing), {ns} completion "
+                     "requests after a typed prefix: the variables and procedures offered are exactly the accessible ones that "
+                     "start with the prefix, under their local names")
+    it.count = ns
+    items.append(it)
     w = c12_probe.run()
     it = Item("C12/session/native_probes", "refuted" if w else "bounded-ok", "native-run(bounded)", 0.0, mode="bounded",
               witness=w, confirmed=True if w else None, func=f"{LS}.serve_autocomplete",
